@@ -93,6 +93,14 @@ func runC10(cases string, res *Result) {
 				res.sample(map[string]interface{}{"templates": evalCaseSources(c), "ctx": c.str("ctx"), "observed": observed}, 8)
 			}
 			where := fmt.Sprintf("%s/render%d", stream, i+1)
+			if i == 0 {
+				res.Hist["under-other-engine-settings"]++
+				if msg := evalUnderSettings(c, parseContext(c.str("ctx")), nil, out, class); msg != "" {
+					add(Finding{Kind: "oracle", Where: where + "/settings", Case: c, Expected: observed, Observed: msg,
+						Detail: "engine settings that have nothing to do with inheritance change what the template renders"})
+					return
+				}
+			}
 			if okO && oracle != observed {
 				add(Finding{Kind: "oracle", Where: where, Case: c, Expected: oracle, Observed: observed,
 					Detail: "the engine's output is not the substitution along the extends chain (specification says " + spec + ", model " + model + ") " + det})
